@@ -439,6 +439,8 @@ def c10_isolation(spec: dict, obs, ex: refmodel.Expect) -> list[Finding]:
                     allowed.add('SystemExit')
                 elif why == 'baseexc':
                     allowed.add('CustomBase')
+                elif why == 'raisefrom':
+                    allowed.add('CustomErr')
                 elif why.startswith('dep:'):
                     allowed.add('TaskError')
                 elif why == 'unpicklable':
